@@ -581,3 +581,6 @@ func (d *Dialer) Dial(network, address string) (net.Conn, error) {
 	d.Ln.Push(l.B)
 	return l.A, nil
 }
+
+// Link returns the link this end belongs to.
+func (e *End) Link() *Link { return e.l }
